@@ -16,6 +16,7 @@ In the theorems: `Event.fault : Option Fault` ranges over every operation index 
 modes; `List Event` / `List AEvent` are arbitrary histories; nothing is bounded.
 -/
 import CaddyModel.C14.Lemmas
+import CaddyModel.C14.FileStoreLemmas
 import CaddyModel.C14.Witness
 import CaddyModel.Gen.CAWrites
 import CaddyModel.Gen.Autosave
@@ -279,6 +280,110 @@ example : (runSteps codeOrder runtimeWitness World.empty).disk.store .intCrt = s
 example : ∃ m y, (Event.mk ⟨4, 100⟩ none).run codeOrder (runSteps codeOrder runtimeWitness World.empty).disk = .ok m y ∧
     m.Consistent ∧ Complete y.store m :=
   recovery_with_runtime_renewal runtimeWitness ⟨4, 100⟩
+
+/-! ### the CA on certmagic.FileStorage (the default storage): no atomicity assumed
+
+So far a `Store` was one operation that took effect or not.  `FileStorage.Store` is six file
+operations (FileStore.lean).  The theorems below quantify over a fault at ANY ONE OF THOSE FILE
+OPERATIONS — process killed, or the call reports an error; before its effect, after its effect,
+or (a write) after any number of bytes — in every start-up of an arbitrary history. -/
+
+/-- **FileStorage.Store is atomic per key under every single fault.**  Whichever file operation
+    is hit and however, afterwards every key file still holds a whole value, `Load` shows the
+    storage as it was or with exactly the new value under the key, and if `Store` returned nil it
+    shows the new value.  (Temp files — empty, torn or whole — may be left behind; they are in
+    the directory, not under any key.) -/
+theorem fileStore_atomic (ff : Option FFault) (i n : Nat) (d : Dir) (k : Key) (b : Blob) (hw : KeysWhole d) :
+    KeysWhole (runDOps ff (fileStoreOps n k b) i d).dir ∧
+    (view (runDOps ff (fileStoreOps n k b) i d).dir = view d ∨
+     view (runDOps ff (fileStoreOps n k b) i d).dir = (view d).set k b) ∧
+    ((runDOps ff (fileStoreOps n k b) i d).status = .done →
+      view (runDOps ff (fileStoreOps n k b) i d).dir = (view d).set k b) := by
+  have h := fileStore_keys ff i n d k b
+  refine ⟨?_, ?_, fun hd => view_of_keys_set (h.2 hd)⟩
+  · rcases h.1 with h0 | h1
+    · exact keysWhole_of_keys_eq h0 hw
+    · exact keysWhole_of_keys_set h1 hw
+  · rcases h.1 with h0 | h1
+    · exact Or.inl (view_of_keys_eq h0)
+    · exact Or.inr (view_of_keys_set h1)
+
+theorem FRes.Holds.view_all {Q : α → Store → Nat → Prop} {E : Store → Nat → Prop} {C : Store → Prop}
+    {P : Store → Prop} {r : FRes α} (h : r.Holds Q E C)
+    (hQ : ∀ a s fr, Q a s fr → P s) (hE : ∀ s fr, E s fr → P s) (hC : ∀ s, C s → P s) :
+    P (view r.sys.dir) ∧ KeysWhole r.sys.dir := by
+  cases r with
+  | ok a y => exact ⟨hQ _ _ _ h.1, h.2⟩
+  | err e y => exact ⟨hE _ _ h.1, h.2⟩
+  | crash y => exact ⟨hC _ h.1, h.2⟩
+
+/-- a start-up through FileStorage, interrupted at any file operation in any way, keeps the
+    directory recoverable -/
+theorem fs_interrupted_startup_keeps_invariant (e : FEvent) (d : FDisk) (t : Nat)
+    (h : InvAt t (view d.dir)) (hw : KeysWhole d.dir) :
+    InvAt e.cfg.now (view (e.after codeOrder d).dir) ∧ KeysWhole (e.after codeOrder d).dir := by
+  have := wp_sound_fs e.fault (startup .keyFirst e.cfg) _ (bootFS d) hw
+    (wp_startup_inv e.cfg (view d.dir) d.fresh h.any)
+  exact this.view_all (fun _ _ _ h => h.1) (fun _ _ h => h) (fun _ h => h)
+
+theorem fs_reachable_invariant : ∀ (evs : List FEvent) (t : Nat) (d : FDisk), InvAt t (view d.dir) → KeysWhole d.dir →
+    InvAt 0 (view (runFSHist codeOrder evs d).dir) ∧ KeysWhole (runFSHist codeOrder evs d).dir
+  | [], _, _, h, hw => ⟨h.any, hw⟩
+  | e :: es, t, d, h, hw =>
+    fs_reachable_invariant es e.cfg.now (e.after codeOrder d)
+      (fs_interrupted_startup_keeps_invariant e d t h hw).1 (fs_interrupted_startup_keeps_invariant e d t h hw).2
+
+/-- **recovery on FileStorage: after any fault of any kind at any write, the CA comes back.**
+    After ANY history of start-ups on an initially empty directory, each with at most one fault
+    at one file operation — kill or reported error, before the effect, after the effect, or a
+    write torn after any number of bytes; at the temp-file creation, chmod, write, fsync, close,
+    rename or at a read — the next uninterrupted start-up succeeds, the chain and keys it holds are
+    mutually consistent (it can sign leaves that verify), they are exactly what `Load` then shows,
+    and no key file is torn. -/
+theorem recovery_on_file_storage (evs : List FEvent) (c : Cfg) :
+    ∃ m y, (FEvent.mk c none).run codeOrder (runFSHist codeOrder evs FDisk.empty) = .ok m y ∧
+      m.Consistent ∧ Complete (view y.dir) m ∧ KeysWhole y.dir := by
+  have hi := fs_reachable_invariant evs 0 FDisk.empty (by
+    have : view FDisk.empty.dir = Store.empty := by funext k; rfl
+    rw [this]; exact InvAt.empty 0) keysWhole_empty
+  have := wpn_sound_fs (startup .keyFirst c) _ (bootFS (runFSHist codeOrder evs FDisk.empty)) hi.2
+    (wpn_startup c _ (runFSHist codeOrder evs FDisk.empty).fresh hi.1.any)
+  show ∃ m y, execFS none (startup .keyFirst c) (bootFS (runFSHist codeOrder evs FDisk.empty)) = .ok m y ∧ _
+  cases hr : execFS none (startup .keyFirst c) (bootFS (runFSHist codeOrder evs FDisk.empty)) with
+  | ok m y => rw [hr] at this; exact ⟨m, y, rfl, this.1.2.1, this.1.1, this.2⟩
+  | err e y => rw [hr] at this; exact this.elim
+  | crash y => rw [hr] at this; exact this.elim
+
+/-- the instance the lead's wording names: ONE fault of any kind at any file operation of the
+    creation, then a restart -/
+theorem recovery_after_any_single_file_fault (idx : Nat) (mode : FMode) (life life' : Nat) :
+    ∃ m y, (FEvent.mk ⟨2, life'⟩ none).run codeOrder
+        ((FEvent.mk ⟨1, life⟩ (some ⟨idx, mode⟩)).after codeOrder FDisk.empty) = .ok m y ∧
+      m.Consistent ∧ Complete (view y.dir) m ∧ KeysWhole y.dir :=
+  recovery_on_file_storage [⟨⟨1, life⟩, some ⟨idx, mode⟩⟩] ⟨2, life'⟩
+
+/-- the creation through FileStorage performs exactly these file operations (the sequence strace
+    shows for the real FileStorage) -/
+example : ((FEvent.mk ⟨1, 100⟩ none).run codeOrder FDisk.empty).sys.log =
+    [.read .rootCrt,
+     .creatTemp 0, .chmod 0, .write 0 (.key 0), .sync 0, .close 0, .rename 0 .rootKey,
+     .creatTemp 1, .chmod 1, .write 1 (.cert 0 0 (1 + rootLife)), .sync 1, .close 1, .rename 1 .rootCrt,
+     .read .intCrt,
+     .creatTemp 2, .chmod 2, .write 2 (.key 1), .sync 2, .close 2, .rename 2 .intKey,
+     .creatTemp 3, .chmod 3, .write 3 (.cert 1 0 101), .sync 3, .close 3, .rename 3 .intCrt] := by decide
+
+/-- the write of the root certificate (operation 10) is torn after 7 bytes and the process dies:
+    a torn temp file is left, no key file is affected, `Load` shows the key and no certificate -/
+example : ((FEvent.mk ⟨1, 100⟩ (some ⟨10, .killTorn 7⟩)).after codeOrder FDisk.empty).dir.tmps 1
+      = some (.part (.cert 0 0 (1 + rootLife)) 7) ∧
+    view ((FEvent.mk ⟨1, 100⟩ (some ⟨10, .killTorn 7⟩)).after codeOrder FDisk.empty).dir .rootCrt = none ∧
+    view ((FEvent.mk ⟨1, 100⟩ (some ⟨10, .killTorn 7⟩)).after codeOrder FDisk.empty).dir .rootKey = some (.key 0) := by
+  decide
+
+/-- the rename of the root certificate (operation 13) reports an error although it took effect:
+    the start-up fails, `Load` shows the complete root (the abstract mode "fail after effect") -/
+example : view ((FEvent.mk ⟨1, 100⟩ (some ⟨13, .failAfter⟩)).after codeOrder FDisk.empty).dir .rootCrt
+      = some (.cert 0 0 (1 + rootLife)) := by decide
 
 /-! ### non-vacuity (kernel-evaluated) -/
 
